@@ -27,6 +27,8 @@ def nontrivial(lines, exp):
 def explore(ctx):
     r = G.explore_profiles(ctx, "C07", PROFILES, nontrivial, n_quick=150, n_thorough=2000)
     c = W.explore(dict(ctx, seed=ctx["seed"] + 2000), "C07", {"open-failed"}, n_quick=8, n_thorough=60, proto=P, proto_gen2=2 if ctx["tier"] == "quick" else 6)
+    from . import multigen as MG
+    c = MG.directed("C07", c)
     c = P.merge(c, ctx, "C07")
     r["disagreements"] = r.get("disagreements", []) + c["disagreements"]
     r["violations"] += [(d, t) for (d, t, _) in c["violations"]][:3]
